@@ -1043,6 +1043,100 @@ def formatWrite (fs : List WFile) : List (Str × Str) × Bool × Bool :=
 def nextRun (F : Str → Option Str) (fs : List WFile) : List WFile :=
   fs.map fun f => { f with orig := f.want, fmt := F f.want }
 
+/-! ### `buf format` to stdout / `-o file.proto` / `-o dir` at the level of file contents
+
+The output step of the modes without `-w`, as coded.  `writeToProtoFile` (stdout and
+`-o x.proto`): the sink is opened once — `PutProtoFile`: the local file with
+`O_WRONLY|O_CREATE|O_TRUNC`, stdout as it is — AFTER FormatBucket succeeded; one walk over the
+formatted bucket in path order, per file `io.ReadAll` + `Write`.  `writeToDir`: `storage.Copy`
+puts every formatted file at its own path below the directory (each opened truncating), what
+else is there stays.  Only targeted files are in the formatted bucket. -/
+
+/-- the formatter's outputs of the targeted files, concatenated in path order: what one walk
+    with a complete read and a complete write per file sends to the sink -/
+def sinkOut (fs : List WFile) : Str :=
+  (fs.filter (·.target)).flatMap fun f => f.fmt.getD []
+
+/-- `-o file.proto` on a location that holds `old`: (content afterwards, the run failed) -/
+def formatToFile (old : Str) (fs : List WFile) : Str × Bool :=
+  if fmtStepOk fs then (writeTrunc old (sinkOut fs), false) else (old, true)
+
+/-- stdout: nothing precedes the run's own output -/
+def formatToStdout (fs : List WFile) : Str × Bool := formatToFile [] fs
+
+/-- `-o dir`: (path, content) of the files written, the run failed -/
+def formatToDir (fs : List WFile) : List (Str × Str) × Bool :=
+  if fmtStepOk fs then ((fs.filter (·.target)).map fun f => (f.path, f.fmt.getD []), false)
+  else ([], true)
+
+/-- NOT as coded (kept for the counterexample): every file goes through ONE `Read` into a buffer
+    of `n` units, so at most `n` units of it arrive -/
+def sinkCut (n : Nat) (fs : List WFile) : Str :=
+  (fs.filter (·.target)).flatMap fun f => (f.fmt.getD []).take n
+
+/-- NOT as coded: the location opened with O_APPEND instead of O_TRUNC -/
+def writeAppend (old new : Str) : Str := old ++ new
+
+/-! #### summaries
+
+The correspondence harness plants formatted texts of up to a megabyte; the protocol lines carry
+a SUMMARY of a text instead of the text: its length and a polynomial hash modulo a prime.  The
+summary is a monoid homomorphism (`summ_append`), so the model computes the summary of what a
+sink must hold from the summaries of the files alone. -/
+
+def hashB : Nat := 257
+def hashP : Nat := 4294967291
+
+structure Summ where
+  len : Nat
+  hash : Nat
+deriving DecidableEq, Repr
+
+/-- the value of the text read as a number in base `hashB` (units = the numbers in the list) -/
+def polyVal (h : Nat) (s : List Nat) : Nat := s.foldl (fun h c => h * hashB + c) h
+
+def summ (s : List Nat) : Summ := ⟨s.length, polyVal 0 s % hashP⟩
+
+def Summ.empty : Summ := ⟨0, 0⟩
+
+def Summ.append (a b : Summ) : Summ :=
+  ⟨a.len + b.len, ((a.hash % hashP) * hashB ^ b.len + b.hash % hashP) % hashP⟩
+
+/-- summary of a text of the model (units: the characters' code points; on the protocol lines
+    the units are bytes) -/
+def summS (s : Str) : Summ := summ (s.map Char.toNat)
+
+/-- a file at summary level -/
+structure SFile where
+  path : Str
+  orig : Summ
+  fmt : Option Summ
+  target : Bool
+deriving DecidableEq, Repr
+
+def WFile.toS (f : WFile) : SFile :=
+  { path := f.path, orig := summS f.orig, fmt := f.fmt.map summS, target := f.target }
+
+def sfmtStepOk (fs : List SFile) : Bool := fs.all fun f => !f.target || f.fmt.isSome
+
+/-- `sinkOut` on summaries -/
+def sinkSumm (fs : List SFile) : Summ :=
+  (fs.filter (·.target)).foldl (fun acc f => acc.append (f.fmt.getD Summ.empty)) Summ.empty
+
+/-- `formatToFile` on summaries -/
+def formatToFileS (old : Summ) (fs : List SFile) : Summ × Bool :=
+  if sfmtStepOk fs then (sinkSumm fs, false) else (old, true)
+
+/-- `formatToDir` on summaries -/
+def formatToDirS (fs : List SFile) : List (Str × Summ) × Bool :=
+  if sfmtStepOk fs then ((fs.filter (·.target)).map fun f => (f.path, f.fmt.getD Summ.empty), false)
+  else ([], true)
+
+/-- what a `-w` run in which every open succeeds leaves on disk, on summaries (`WFile.want`) -/
+def formatWriteS (fs : List SFile) : List (Str × Summ) × Bool :=
+  if sfmtStepOk fs then (fs.map fun f => (f.path, if f.target then f.fmt.getD f.orig else f.orig), false)
+  else (fs.map fun f => (f.path, f.orig), true)
+
 /-- The four commands of the property with the abstract results of their steps, and `buf dep
     graph` — the command that reaches `ModuleDeps()` and with it the ImportNotExistError of a
     `.proto` file importing a file that does not exist (build / lint / breaking / format get a
